@@ -52,6 +52,16 @@ func (s *Svc) Holder() string {
 	return s.holder.Host
 }
 
+// Revoke takes the lease away from its holder: the next renewal reports it gone.
+func (s *Svc) Revoke() {
+	s.mu.Lock()
+	defer s.mu.Unlock()
+	if s.holder != nil {
+		s.logf("revoke %s", s.holder.Host)
+		s.holder = nil
+	}
+}
+
 // Leaser is one node's view of the service.
 type Leaser struct {
 	svc  *Svc
